@@ -11,7 +11,8 @@ ID = "C04"
 LEVEL = "exploration"
 RULE = ("encode side: value specs constructed per wire length-class (immutables ∪ non-dumpables buried in containers); "
         "oracle = dumpable ⇔ statement's plain(), dumpable ⇒ dump succeeds and load(dump(v)) is type-exact/bit-exact, "
-        "not dumpable ⇒ dump raises TypeError.  decode side: random bytes and mutations of valid encodings; oracle = "
+        "not dumpable ⇒ dump raises TypeError (also with the interpreter's int->text digit limit changed at run time: 0 = "
+        "unlimited, 640 … 9000, integers just below / at / above / twice the limit in force).  decode side: random bytes and mutations of valid encodings; oracle = "
         "load raises an Exception or returns a plain value, with an audit hook seeing no import/exec/open/pickle event. "
         "non-trivial = composite value, a length-class edge, non-finite or negative-zero float, rejection caused by a "
         "nested member; for decoding: result composite or rejection after a container/length tag. distinct by case hash.")
@@ -78,16 +79,45 @@ def plan(tier, scale):
     out = [{"part": "encode", "n": int(n_enc * scale)} for _ in range(sh)]
     out += [{"part": "decode", "n": int(n_dec * scale)} for _ in range(sh)]
     out.append({"part": "alltags"})
+    out.append({"part": "intlimit", "n": int((300 if tier == "quick" else 4000) * scale)})
     if tier == "thorough":
         out += [{"part": "atheris", "runs": int(600000 * scale), "corpus": c} for c in ("empty", "seeded")]
     return out
 
 
 # ---------------------------------------------------------------------------------------------------
-def check_encode(spec, rec):
+def check_intlimit(case, rec):
+    """the interpreter's int->text digit limit is a run-time setting: 'can render as text' means under the limit in force"""
+    import sys
+    old = sys.get_int_max_str_digits()
+    try:
+        sys.set_int_max_str_digits(case["limit"])
+        fails = check_encode(case["spec"], rec, case)
+    finally:
+        sys.set_int_max_str_digits(old)
+    return fails
+
+
+def intlimit_cases():
+    def mk(t):
+        limit, rel, k, neg, shape = t
+        nd = {"below": (limit or 5000) - 1, "at": limit or 5000, "above": (limit or 5000) + 1, "double": 2 * (limit or 5000)}[rel]
+        spec = ["pow10", nd - 1, k, neg]
+        if shape == "tuple":
+            spec = ["tuple", [["int", "1"], spec]]
+        elif shape == "frozenset":
+            spec = ["fset", [spec]]
+        return {"part": "intlimit", "limit": limit, "spec": spec}
+    return st.tuples(st.sampled_from([0, 640, 641, 1000, 2500, 4300, 9000]), st.sampled_from(["below", "at", "above", "double"]),
+                     st.integers(0, 9), st.booleans(), st.sampled_from(["bare", "tuple", "frozenset"])).map(mk)
+
+
+def check_encode(spec, rec, case=None):
     from rpyc.core import brine
-    case = {"part": "encode", "spec": spec}
+    case = case or {"part": "encode", "spec": spec}
     classes = vals.spec_classes(spec)
+    if "limit" in case:
+        classes.add("int-text-limit-changed-at-run-time:%d" % case["limit"])
     v = vals.build(spec)
     fails = []
     p = vals.plain(v)
@@ -230,6 +260,8 @@ def run_shard(desc, seed, rec, tier):
         huge = st.one_of(vals.huge_ints(), vals.huge_ints().map(lambda s: ["tuple", [["int", "1"], s]]))
         strat = st.one_of(vals.immutables(), vals.immutables(), vals.non_dumpables(), huge)
         drive(rec, strat, lambda spec: check_encode(spec, rec), desc["n"], seed)
+    elif desc["part"] == "intlimit":
+        drive(rec, intlimit_cases(), lambda c: check_intlimit(c, rec), desc["n"], seed)
     elif desc["part"] == "alltags":
         import hashlib
         for tag in range(256):
@@ -248,4 +280,6 @@ def run_shard(desc, seed, rec, tier):
 def replay(case, rec):
     if case["part"] == "encode":
         return check_encode(case["spec"], rec)
+    if case["part"] == "intlimit":
+        return check_intlimit(case, rec)
     return check_decode(bytes.fromhex(case["hex"]), rec, "replay")
